@@ -101,6 +101,27 @@ QUICK = [
 QUICK_EXTRA_THOROUGH = [rng("\uffff", "\U00010000"), rng("K", "K"), lit("]"), B("ASCII_ALPHA"), rng("\x7f", "\x80")]
 
 
+ADJ_WINDOWS = [(0x00, 0x100), (0x2100, 0x2140), (0xFF00, 0x10100), (0x10FFF0, 0x110000)]
+
+
+def adjacency_family(tier: str):
+    """Choices around one base range: a literal or a second range starting/ending 2 below .. 2 above each end of it, in both orders
+    (what the optimizer's merged class does with touching, overlapping, contained and adjacent members)."""
+    fam = []
+    for lo, hi in ((("c", "f"),) if tier == "quick" else (("c", "f"), ("1", "4"), ("X", "]"))):
+        base = rng(lo, hi)
+        near = sorted({chr(ord(x) + d) for x in (lo, hi) for d in (-2, -1, 0, 1, 2)})
+        others = [lit(c) for c in near] + [rng(a, b) for a in near for b in near if a <= b]
+        for o in others:
+            fam.append(("alt", (base, o)))
+            fam.append(("alt", (o, base)))
+        for a in near:
+            for b in near:
+                if a < b:
+                    fam.append(("alt", (lit(a), base, lit(b))))
+    return fam
+
+
 def thorough_family():
     fam = [B(n) for n in ASCII] + [e for e in QUICK + QUICK_EXTRA_THOROUGH if e[0] != "builtin"]
     special = set("-[]\\^~&|")
@@ -309,6 +330,10 @@ def run(tier: str) -> int:
     for gi in range(0, len(all_exprs), group):
         for lo in range(0, N_CP, step * (4 if tier == "quick" else 2)):
             payloads.append((all_exprs[gi:gi + group], lo, min(N_CP, lo + step * (4 if tier == "quick" else 2)), set(props)))
+    adj = adjacency_family(tier)
+    for gi in range(0, len(adj), 12):
+        for lo, hi in ADJ_WINDOWS:
+            payloads.append((adj[gi:gi + 12], lo, hi, set(props)))
     results = common.parallel_map(_sweep, payloads, fresh=True, order_seed=common.seed())
     forms = (6,) if tier == "quick" else (2, 3, 4, 5, 6)
     esc_payloads = []
@@ -351,11 +376,13 @@ def run(tier: str) -> int:
         "distinct_nontrivial": agg["accepts"],
         "rule": "for every expression X of the family, a one-rule grammar r = { X } is built in all four modes and parse('r', chr(cp)) is called for EVERY code point U+0000..U+10FFFF (surrogates included); "
                 "membership is computed from the definition with integer comparisons (ranges inclusive and case sensitive, literals exact, choices = union, ASCII_*/NEWLINE/ANY from pest's book; case-insensitive literals judged on ASCII input only); "
+                f"adjacency family: {len(adj)} choices of a base range with a literal or a second range starting/ending within 2 of either end (both orders, and literal|range|literal), judged on the windows {[(hex(a), hex(b)) for a, b in ADJ_WINDOWS]} only; "
                 "built-in Unicode property rules must give the same answer in all four modes. Escapes: every \\xHH (both digit cases) and every \\u{H..} value in the stated digit-count forms, in string and character literals, "
                 "must match exactly the intended character (and not its neighbour); every string literal made of 1-3 pieces from {\\n \\r \\t \\\\ \\\" \\' \\0 n r t 0 x u} must decode piecewise. distinct_nontrivial = accepted (expression, code point) points in mode IU",
         "samples": [{"expr": text_of(e)} for e in common.pick_samples(all_exprs, 5)],
         "exhaustive": True,
         "expressions": len(exprs),
+        "adjacency_expressions_on_windows": len(adj),
         "unicode_property_rules": len(prop_exprs),
         "code_points": N_CP,
         "modes": list(modes.MODES),
